@@ -162,8 +162,12 @@ pub fn observe_filter(
         }
         Ok(filter) => {
             for &c in ctxs {
-                let ctx = build_ctx(scheme, spec, &w.ctxs[c - 1]);
-                let r = catch_unwind(AssertUnwindSafe(|| filter.execute(&ctx)));
+                // building the context is part of the observation: if the engine hands out something the
+                // harness cannot work with (e.g. a matcher of another list), that is recorded as a panic
+                let r = catch_unwind(AssertUnwindSafe(|| {
+                    let ctx = build_ctx(scheme, spec, &w.ctxs[c - 1]);
+                    filter.execute(&ctx)
+                }));
                 runs.push(match r {
                     Ok(Ok(b)) => Run {
                         ctx: c,
@@ -261,8 +265,7 @@ pub fn observe_value(
         }
         Ok(fv) => {
             for &c in ctxs {
-                let ctx = build_ctx(scheme, spec, &w.ctxs[c - 1]);
-                let r = catch_unwind(AssertUnwindSafe(|| match fv.execute(&ctx) {
+                let r = catch_unwind(AssertUnwindSafe(|| match fv.execute(&build_ctx(scheme, spec, &w.ctxs[c - 1])) {
                     Ok(Ok(v)) => ("ok", Val::from_engine(&v)),
                     Ok(Err(t)) => (
                         "ok",
